@@ -202,6 +202,8 @@ func TestC10(t *testing.T) {
 				return " " + s
 			case 4:
 				return rapid.SampledFrom([]string{"x", "/", "é", "s", hexsha("zz")}).Draw(rt, l+"-odd")
+			case 5:
+				return strings.ToUpper(s) // same hex digits, different spelling
 			}
 			return s
 		}
@@ -313,8 +315,11 @@ func TestC10(t *testing.T) {
 				signer := signerFor(rt, e)
 				addr, acct := craft(rt, "address", e.Address), craft(rt, "fileOwner", e.Account)
 				newAcct := hexsha(drawAcc(rt, "newOwner").Bech)
-				if rapid.IntRange(0, 9).Draw(rt, "oddNewOwner") == 0 {
+				switch rapid.IntRange(0, 9).Draw(rt, "oddNewOwner") {
+				case 0:
 					newAcct = rapid.SampledFrom([]string{"x", "a/b", e.Account}).Draw(rt, "newOwnerOdd")
+				case 1, 2: // another spelling of somebody's account hash
+					newAcct = strings.ToUpper(newAcct)
 				}
 				t, found := w.model[ftKey(addr, ftOwnerAddr(addr, acct))]
 				verdict := mustFail
